@@ -402,9 +402,115 @@ case("private read-only properties read like method calls", """
 """, 0)
 
 
-def run(tree):
+case("consumer body continues; the yield is the tail of the generator's loop", '''
+    def _drain(ids):
+        while ids:
+            yield ids.pop()
+    def main():
+        out = []
+        table = {1: "a", 3: "c"}
+        for i in _drain([3, 2, 1]):
+            try:
+                out.append(table[i])
+            except KeyError:
+                continue
+            out.append(i)
+        return out
+''', 1)
+
+case("consumer body continues but the generator goes on after the yield: not written out", '''
+    def _drain(ids, log):
+        while ids:
+            yield ids.pop()
+            log.append("resumed")
+    def main():
+        out, log = [], []
+        for i in _drain([3, 2, 1], log):
+            if i == 2:
+                continue
+            out.append(i)
+        return out, log
+''', 0)
+
+case("private property with a setter: reads become calls, plain stores become setter calls", '''
+    class Box:
+        def __init__(self):
+            self._inner = [0]
+            self._level = 5
+        @property
+        def _level(self):
+            print("get")
+            return self._inner[0]
+        @_level.setter
+        def _level(self, value):
+            print("set", value)
+            self._inner[0] = value
+        def bump(self, by):
+            self._level = self._level + by
+            return self._level
+    def main():
+        b = Box()
+        return b.bump(2), b.bump(-10), b._inner
+''', 0)
+
+case("filtering generator, consumer continues: the generator's variables take the names of the loop targets", '''
+    def _members(d, hide):
+        for name, member in sorted(d.items()):
+            if name in hide:
+                continue
+            if name.startswith("_"):
+                continue
+            yield name, member
+    def main():
+        out = {}
+        for name, member in _members({"a": 1, "_b": 2, "c": "x", "d": 4, "zz": 5}, {"d"}):
+            if isinstance(member, str):
+                continue
+            out[name] = member
+        return out
+''', 1)
+
+case("the loop target is read after the loop: it keeps the last YIELDED value, not the generator's last", '''
+    def _members(d):
+        for name, member in sorted(d.items()):
+            if name.startswith("_"):
+                continue
+            yield name, member
+    def main():
+        name = "none"
+        seen = []
+        for name, member in _members({"a": 1, "b": 2, "_z": 3}):
+            seen.append(member)
+        return name, seen
+''', 1)
+
+# a generator imported from a sibling module (offered to normalise() by the program loader)
+IMPORTED = textwrap.dedent('''
+    def pop_until_empty(ids):
+        while ids:
+            yield ids.pop()
+    def uses_a_global(ids):
+        for i in ids:
+            yield i + OFFSET
+    OFFSET = 10
+''')
+XCASES = [("imported closed generator is written out; one that reads a module global is not", textwrap.dedent('''
+    def main():
+        out = []
+        reg = {1, 2, 3}
+        for i in pop_until_empty(reg):
+            out.append(i)
+        for j in uses_a_global([1, 2]):
+            out.append(j)
+        return sorted(out), reg
+'''), 1)]
+
+
+def run(tree, pre=None):
     buf = io.StringIO()
     ns = {}
+    if pre is not None:
+        exec(compile(pre, "<imported>", "exec"), ns)
     with contextlib.redirect_stdout(buf):
         try:
             exec(compile(tree, "<case>", "exec"), ns)
@@ -429,7 +535,22 @@ def main():
             print("   as written :", want)
             print("   normalised :", got)
             print(ast.unparse(t))
-    print(f"{len(CASES)} cases, {bad} mismatches")
+    from tpsa.normalise import closed_generators
+    for name, src, inlined in XCASES:
+        offered = closed_generators(ast.parse(IMPORTED))
+        want = run(ast.parse(src), IMPORTED)
+        t = normalise(ast.parse(src), dict(offered))
+        ast.fix_missing_locations(t)
+        got = run(t, IMPORTED)
+        n = getattr(t, "_tpsa_gen_inlined", None)
+        ok = want == got and n == inlined and sorted(offered) == ["pop_until_empty"]
+        bad += not ok
+        print(("ok      " if ok else "MISMATCH"), name, f"(inlined {n}, expected {inlined}; offered {sorted(offered)})")
+        if want != got:
+            print("   as written :", want)
+            print("   normalised :", got)
+            print(ast.unparse(t))
+    print(f"{len(CASES) + len(XCASES)} cases, {bad} mismatches")
     return 1 if bad else 0
 
 
